@@ -74,7 +74,9 @@ claim('C10',
       'including jitted kernels and block functions - the attribute stores present in the tree are an explicit '
       'exception table (value-preserving rechunk, viewshed dtype widening, zonal.apply contract); P2 the array '
       'wrapped into the result is fresh (trim/crop: a window of the right input); P3 the result is constructed with '
-      'the input raster\'s coords, dims and attrs (attrs copied where edited). Holds for every dtype and memory '
+      'the input raster\'s coords, dims and attrs (attrs copied where edited; identity from the first raster parameter); '
+      'P3-backend every return of every dask-slot function of a backend table is lazy (no numpy constructor, no '
+      '.compute()). Holds for every dtype and memory '
       'layout by construction. Does not decide whether numba accepts read-only / non-contiguous inputs.',
       'Trusted: the alias vocabulary (which NumPy/xarray/dask calls return views vs copies, DESIGN Appendix C); '
       'unknown external calls are assumed to return fresh arrays and not to write their arguments.',
@@ -171,11 +173,15 @@ claim('C12',
       'K3 precision provenance: no allocation narrower than float64 lies on the dataflow trace from the data to the '
       'breaks handed to the binning kernel, the cell value is compared un-narrowed, and the last break is forced to '
       'the exact finite maximum on every path (numpy, dask, natural breaks); K4 equal-width cuts min+(i+1)(max-min)/k, '
-      'percentile levels 100 i/k capped at 100 over finite cells, de-duplicated. NOT decided (declined): correctness '
-      'of the hand-written binary search for every bin count and optimality of the Jenks dynamic programme.',
+      'percentile levels 100 i/k capped at 100 over finite cells, de-duplicated, extrema taken from a floating inf-free '
+      'array on every path; K4-search the per-cell code of the binning kernel (finite test, first-bin test, hand-written '
+      'binary search, label store) is constant-folded - a pure-Python subset, no library code runs - for every ascending '
+      'break list of 1..7 breaks and a value at every position relative to them plus NaN/+inf/-inf (84 cases): exhaustive '
+      'for these break counts. NOT decided (declined): the binary search for arbitrary bin counts (no loop invariant is '
+      'proved) and optimality of the Jenks dynamic programme.',
       'Trusted: np.percentile / np.unique / np.arange semantics. The two declined clauses need loop invariants / a '
       'global-optimum argument that no sound static rule in reach provides.',
-      'guard-dominance rules + backward dataflow slice for dtype provenance + symbolic formula comparison',
+      'guard-dominance rules + backward dataflow slice for dtype provenance + symbolic formula comparison + constant folding of the per-cell code over finite models (all positions x 1..7 breaks)',
       'DESIGN.md §4 C12')
 
 claim('C16',
@@ -277,7 +283,7 @@ claim('C05',
       'cells written under max gradient <= own gradient with the vertical angle whose three branches are evaluated: '
       '90 level, (0,90) below, (90,180) above, from sqrt of the squared-distance key); T6 ew_res scales column and '
       'ns_res row differences, resolutions from width-1 / height-1; T7 events sorted by angle then type with EXIT < '
-      'CENTER < ENTER; T8 observer cell by nearest-coordinate selection; T10 the observer elevation is formed after '
+      'CENTER < ENTER; T8 observer cell by nearest-coordinate selection and observers accepted exactly inside the coordinate extent (terms not of the accepted form are evaluated on model rasters with ascending / descending / irregular coordinates); T10 the observer elevation is formed after '
       'widening to float, target height = max(target_elev, 0); T11 sweep skeleton on the interpreted sweep: node fields '
       'equal the event helpers applied to the matching event position / elevation (expectations built by interpreting '
       'the helpers symbolically), the 2*pi fix-ups, and insert / delete / query dispatched by event type with the '
